@@ -158,3 +158,52 @@ package baggage
 //@   modifies
 //@   loop#1 invariant 0 <= i && i <= len(s) && hexCount == escUpto(s, i)
 //@   loop#2 invariant 0 <= i && i <= len(s) && j == i + 2 * escUpto(s, i) && len(t) == required && required == len(s) + 2 * hexCount && hexCount == escUpto(s, len(s))
+
+// ======================================================================== C11 constructors: what a Member / Property may hold
+// "Any baggage the constructor accepts (valid keys, arbitrary UTF-8 values and properties ...)": every constructor either fails and
+// returns the invalid zero value, or returns exactly the key it was given (non-empty) with a value that is valid UTF-8 - also when
+// the value arrived percent-encoded and was decoded first (the decoded text is what is checked, not the encoded one).
+//@ func validateBaggageName(s string) (r bool)
+//@   ensures r == (len(s) > 0 && utf8valid(s))
+//@ func validateBaggageValue(s string) (r bool)
+//@   ensures r == utf8valid(s)
+
+//@ func (p Property) validate() (err error)
+//@   unchecked no-panic fmt.Errorf, errors.New
+//@   ensures err == nil ==> len(p.key) > 0 && utf8valid(p.key) && (p.hasValue ==> utf8valid(p.value)) && (!p.hasValue ==> p.value == "")
+//@ func (p properties) validate() (err error)
+//@   modifies
+//@   ensures err == nil ==> forall i in 0 .. len(p) : len(p[i].key) > 0 && utf8valid(p[i].key) && (p[i].hasValue ==> utf8valid(p[i].value))
+//@   loop#1 invariant forall i in 0 .. $k : len(p[i].key) > 0 && utf8valid(p[i].key) && (p[i].hasValue ==> utf8valid(p[i].value))
+
+//@ func (m Member) validate() (err error)
+//@   unchecked no-panic fmt.Errorf
+//@   modifies
+//@   ensures err == nil ==> m.hasData && len(m.key) > 0 && utf8valid(m.key) && utf8valid(m.value)
+//@   ensures err == nil ==> forall i in 0 .. len(m.properties) : len(m.properties[i].key) > 0 && utf8valid(m.properties[i].key) && (m.properties[i].hasValue ==> utf8valid(m.properties[i].value))
+
+//@ func NewKeyProperty(key string) (p Property, err error)
+//@   unchecked no-panic fmt.Errorf
+//@   ensures err == nil ==> p.key == key && len(key) > 0 && utf8valid(key) && !p.hasValue && p.value == ""
+//@   ensures err != nil ==> p.key == "" && p.value == "" && !p.hasValue
+//@ func NewKeyValuePropertyRaw(key string, value string) (p Property, err error)
+//@   unchecked no-panic fmt.Errorf
+//@   ensures err == nil ==> p.key == key && len(key) > 0 && utf8valid(key) && p.hasValue && p.value == value && utf8valid(value)
+//@   ensures err != nil ==> p.key == "" && p.value == "" && !p.hasValue
+//@ func NewKeyValueProperty(key string, value string) (p Property, err error)
+//@   unchecked no-panic fmt.Errorf
+//@   ensures err == nil ==> p.key == key && len(key) > 0 && (forall i in 0 .. len(key) : key[i] < 128) && p.hasValue && utf8valid(p.value)
+//@   ensures err != nil ==> p.key == "" && p.value == "" && !p.hasValue
+//@   assert@call PathUnescape#1 : $arg0 == value
+
+//@ func NewMemberRaw(key string, value string, props []Property) (m Member, err error)
+//@   unchecked no-panic,frame fmt.Errorf; the property list is copied into a fresh slice
+//@   ensures err == nil ==> m.hasData && m.key == key && m.value == value && len(key) > 0 && utf8valid(key) && utf8valid(value)
+//@   ensures err == nil ==> len(m.properties) == len(props) && (forall i in 0 .. len(props) : len(m.properties[i].key) > 0 && utf8valid(m.properties[i].key) && (m.properties[i].hasValue ==> utf8valid(m.properties[i].value)))
+//@   ensures err != nil ==> !m.hasData && m.key == "" && m.value == ""
+//@ func NewMember(key string, value string, props []Property) (m Member, err error)
+//@   unchecked no-panic,frame fmt.Errorf; the property list is copied into a fresh slice
+//@   ensures err == nil ==> m.hasData && m.key == key && len(key) > 0 && (forall i in 0 .. len(key) : key[i] < 128) && utf8valid(m.value)
+//@   ensures err == nil ==> forall i in 0 .. len(m.properties) : len(m.properties[i].key) > 0 && utf8valid(m.properties[i].key) && (m.properties[i].hasValue ==> utf8valid(m.properties[i].value))
+//@   ensures err != nil ==> !m.hasData && m.key == "" && m.value == ""
+//@   assert@call PathUnescape#1 : $arg0 == value
